@@ -296,6 +296,23 @@ def known_sig(kf, failing):
     return False
 
 
+def gen_name_case(rng):
+    """a value from unsafe content read BY NAME from evaluated code (!eval, f-string), in both key orders and through a nested name"""
+    mark = rng.choice(['!unsafe 2', '!unsafe {k: 2}', '!unsafe [1, 2]'])
+    reader = rng.choice(['!eval "bar"', '!fstr "v{bar}"', '!eval "[bar, 1]"', '!eval "len(str(bar))"'])
+    nested = rng.random() < 0.4
+    if nested:
+        ents = [('box', '{bar: %s, ok: 1}' % mark), ('foo', reader.replace('bar', 'box.bar'))]
+    else:
+        ents = [('bar', mark), ('foo', reader)]
+    extra = ('z', '0')
+    layouts = []
+    for order in ([0, 1], [1, 0]):
+        e2 = [ents[i] for i in order] + [extra]
+        layouts.append('{' + ', '.join(f'{k}: {v}' for k, v in e2) + '}')
+    return dict(names=True, layouts=layouts, nested=nested)
+
+
 def run(rep, tier, rng):
     rep.rule = ('1-3 stage configs in which every leaf is a unique marker value and every !call/!bind has its own recording target; random !unsafe marks at any level, random safe=False '
                 'sources, references from call arguments to data, later stages overriding arguments / function names / deleting; non-trivial = at least one unsafe mark or unsafe source '
@@ -327,6 +344,24 @@ def run(rep, tier, rng):
         t = '\n'.join(gen.render(d) for d in c['docs'])
         rep.case(t + repr(c['safes']), ('!unsafe' in t or not all(c['safes'])) and ('!call' in t or '!bind' in t),
                  sample=dict(docs=[gen.render(d) for d in c['docs']], safes=c['safes']))
+    from .. import scenrun
+    nm = [gen_name_case(rng) for _ in range(30 if tier == 'quick' else 300)]
+    flat = [dict(texts=[l], probes=['plain(cfg)']) for c in nm for l in c['layouts']]
+    it = iter(scenrun.run_batch(flat))
+    for c in nm:
+        c['res'] = [next(it) for _ in c['layouts']]
+
+    def judge_names(c):
+        for l, r in zip(c['layouts'], c['res']):
+            if r['kind'] == 'ok':
+                # D21's mechanism: the name denotes a SAFE container that was evaluated (cached) before the reader; the unsafe entry is then plain attribute access
+                first = l.index('box:') < l.index('foo:') if c.get('nested') else False
+                return dict(text=l, reason='a value originating from unsafe content was resolved as a name by evaluated code (the build must fail with UnsafeError, in every key order)',
+                            result=r.get('probes'), taint='nested' if (c.get('nested') and first) else 'direct')
+            if not r.get('unsafe_cause'):
+                return dict(text=l, reason='expected an UnsafeError', got=r['kind'], err=r.get('err'))
+        return None
+    base.run_oracle(rep, 'C07', 'unsafe data read by name from !eval / f-string code, both key orders (repaired defect)', nm, judge_names, known_sig=known_sig, show=lambda c: dict(names=True, layouts=c['layouts']))
     base.run_oracle(rep, 'C07', 'no unsafe node executed, no unsafe value passed to a call', scen, judge, known_sig=known_sig,
                     show=lambda c: dict(docs=[gen.render(d) for d in c['docs']], safes=c['safes']))
 
@@ -336,6 +371,12 @@ def replay(data):
     if 'input' in r:
         from ..reparse import parse_doc
         x = r['input']
+        if x.get('names'):
+            from .. import scenrun
+            res = scenrun.run_batch([dict(texts=[l], probes=[]) for l in x['layouts']])
+            bad = [(l, r) for l, r in zip(x['layouts'], res) if r['kind'] == 'ok' or not r.get('unsafe_cause')]
+            print('replay:', 'property FAILS' if bad else 'property holds', bad[:1])
+            return 1 if bad else 0
         f = judge(dict(docs=[parse_doc(t) for t in x['docs']], safes=x['safes']))
         print('replay:', 'property FAILS' if f else 'property holds', f or '')
         return 1 if f else 0
